@@ -661,6 +661,11 @@ func c01Rec(r *Run) {
 			if cal == nil {
 				return true
 			}
+			if cal == fn && c01BoundedLevelCall(info, fd, c) {
+				// a level-indexed function calling itself for the next level (f(level+1, …)) with a base
+				// case on the level: the depth of this recursion is the number of levels, not of the input
+				return true
+			}
 			if declOf[cal] != nil && !seen[cal] {
 				seen[cal] = true
 				edges[fn] = append(edges[fn], cal)
@@ -973,4 +978,69 @@ func c01Rec(r *Run) {
 			r.bad(key, comp[0].Pos(), fmt.Sprintf("a cycle of the recursive component avoids every depth guard: %s → (back): input nested along it overflows the Go stack", strings.Join(cyc, " → ")))
 		}
 	}
+}
+
+// c01BoundedLevelCall: call is a self-call of fd that passes param+K (K a positive constant) for an integer
+// parameter, and fd's body starts (among its top-level statements) with an if that compares that parameter
+// with a constant (== or >=) and returns — the recursion is bounded by a constant.
+func c01BoundedLevelCall(info *types.Info, fd *ast.FuncDecl, call *ast.CallExpr) bool {
+	if fd.Type.Params == nil {
+		return false
+	}
+	k := 0
+	for _, f := range fd.Type.Params.List {
+		for _, nm := range f.Names {
+			po := info.Defs[nm]
+			idx := k
+			k++
+			if po == nil || !isIntType(po.Type()) || idx >= len(call.Args) {
+				continue
+			}
+			be, ok := ast.Unparen(call.Args[idx]).(*ast.BinaryExpr)
+			if !ok || be.Op != token.ADD {
+				continue
+			}
+			id, ok := ast.Unparen(be.X).(*ast.Ident)
+			if !ok || info.Uses[id] != po {
+				continue
+			}
+			tv, ok := info.Types[be.Y]
+			if !ok || tv.Value == nil || tv.Value.String() == "0" || strings.HasPrefix(tv.Value.String(), "-") {
+				continue
+			}
+			// base case on the parameter
+			for _, st := range fd.Body.List {
+				is, ok := st.(*ast.IfStmt)
+				if !ok || is.Init != nil {
+					continue
+				}
+				cmp, ok := ast.Unparen(is.Cond).(*ast.BinaryExpr)
+				if !ok || (cmp.Op != token.EQL && cmp.Op != token.GEQ && cmp.Op != token.GTR) {
+					continue
+				}
+				cid, ok := ast.Unparen(cmp.X).(*ast.Ident)
+				if !ok || info.Uses[cid] != po {
+					continue
+				}
+				if ctv, ok := info.Types[cmp.Y]; !ok || ctv.Value == nil {
+					continue
+				}
+				// every path of the arm leaves without calling fd again
+				leaves, recurses := containsReturn(is.Body), false
+				ast.Inspect(is.Body, func(n ast.Node) bool {
+					if c, ok := n.(*ast.CallExpr); ok && calleeOf(info, c) == info.Defs[fd.Name] {
+						recurses = true
+					}
+					return true
+				})
+				if leaves && !recurses {
+					return true
+				}
+			}
+		}
+		if len(f.Names) == 0 {
+			k++
+		}
+	}
+	return false
 }
